@@ -68,9 +68,21 @@ func generate(prop, family string, seed uint64, tier string) Scenario {
 
 // KernelConfig derives the kernel configuration from the scenario.
 func KernelConfig(sc Scenario, tape []uint32, replay bool, trace bool) simrt.Config {
+	// Step budgets: at least ten times the largest run observed per family on the unchanged tree
+	// (evidence key max_scheduling_points_in_run), so that a run-away loop is cut short quickly
+	// where scenarios are small and long virtual-time leaps still fit where they are not.
+	budget := int64(4_000_000) // hosts, lease, sends, naming: day-long leaps through minute tickers (1.4 M observed)
+	switch sc.Family {
+	case "conc9", "dhcp":
+		budget = 600_000 // 46 k observed
+	case "arpspoof", "ndspoof":
+		budget = 300_000 // 3 k observed
+	case "ping":
+		budget = 200_000 // 1 k observed
+	}
 	return simrt.Config{Seed: sc.Seed*0x9e3779b97f4a7c15 + 1, Tape: tape, Replay: replay,
 		PreemptN: sc.Cfg.PreemptN, HintMax: sc.Cfg.HintMax, StallDen: sc.Cfg.StallDen,
-		MaxSteps: 3_000_000, TraceFull: trace}
+		MaxSteps: budget, TraceFull: trace}
 }
 
 // Driver returns the driver task body for a scenario.
